@@ -767,11 +767,18 @@ def set_token_serial(b, serial):
         if t == CKA_OS_TOKENSERIAL and k == 3: return bytes(b[:s0 + 16]) + struct.pack('>Q', len(serial)) + serial + bytes(b[e0:])
     return None
 
+MECH_NAMES = ['CKM_SHA256', 'CKM_AES_CBC', 'CKM_RSA_PKCS', 'CKM_SHA_1', 'CKM_AES_GCM', 'CKM_ECDSA', 'CKM_AES_KEY_GEN', 'CKM_SHA512_HMAC', 'CKM_RSA_PKCS_KEY_PAIR_GEN', 'CKM_AES_KEY_WRAP']
+def mech_list_with_duplicates(rnd, positive, repeats, unknown, names=None):
+    """a slots.mechanisms value that names mechanisms more than once (positive list, or negative '-' list), optionally mixed with unknown names"""
+    names = names or rnd.sample(MECH_NAMES, rnd.choice([1, 2, 3])); l = (names * repeats)[:max(2, repeats * len(names))]
+    if unknown: l.insert(len(l) // 2, 'CKM_NO_SUCH_MECHANISM'); l.append('CKM_NOPE'); l.insert(1, l[0])
+    return ('' if positive else '-') + ','.join(l)
 CONF_KEYS = ['directories.tokendir', 'objectstore.backend', 'objectstore.umask', 'log.level', 'slots.removable', 'slots.mechanisms', 'library.reset_on_fork']
 def mutate_conf(rnd, text, d):
     """one hostile edit of softhsm2.conf -> (class label, bytes).  `d` is the scratch dir (for path tricks)."""
-    r = rnd; lines = text.splitlines(); c = r.randrange(22)
+    r = rnd; lines = text.splitlines(); c = r.randrange(25)
     def rep(key, val): return ('\n'.join([l for l in lines if not l.startswith(key)] + ['%s = %s' % (key, val)]) + '\n').encode('latin-1')
+    if c >= 22: return 'mechanisms-duplicates', rep('slots.mechanisms', mech_list_with_duplicates(r, positive=r.random() < 0.6, repeats=r.choice([2, 3, 5, 13, 40]), unknown=r.random() < 0.4))
     if c == 0: return 'long-line', rep(r.choice(CONF_KEYS), 'A' * r.choice([1000, 1010, 1022, 1023, 1024, 1025, 2047, 2048, 5000, 70000]))
     if c == 1: return 'long-key', (text + 'K' * r.choice([1023, 1024, 1025, 3000]) + ' = x\n').encode()
     if c == 2: return 'non-ascii', rep(r.choice(CONF_KEYS), bytes(r.randrange(128, 256) for _ in range(r.choice([1, 10, 300]))).decode('latin-1'))
